@@ -57,6 +57,17 @@ def cli_render(ctx, cfg):
         os.makedirs(os.path.join(d, t["path"]), exist_ok=True)
         open(os.path.join(d, t["path"], "_f"), "w").write("x")
     open(os.path.join(d, "Monorail.json"), "w").write(G.cfg_json(cfg))
+    # the output file usually exists already (an earlier render of a larger configuration): what is left in it afterwards
+    # must be this configuration's graph and nothing else
+    kind = ctx.evaluations % 3
+    if kind == 1:
+        open(os.path.join(d, "g.dot"), "w").write("digraph {\n" + "".join('%d [label="old/t%d"];\n' % (i, i) for i in range(40)) + "".join("%d -> %d;\n" % (i + 1, i) for i in range(39)) + "}\n")
+    elif kind == 2:
+        big = {"targets": cfg["targets"] + [{"path": "zz_extra/t%02d" % i, "uses": [cfg["targets"][0]["path"]]} for i in range(12)]}
+        open(os.path.join(d, "Monorail.json"), "w").write(G.cfg_json(big))
+        subprocess.run([vlib.BIN_MONORAIL, "-f", os.path.join(d, "Monorail.json"), "target", "render", "-f", "g.dot"], cwd=d, capture_output=True, text=True, timeout=60)
+        open(os.path.join(d, "Monorail.json"), "w").write(G.cfg_json(cfg))
+    ctx.count("render_into_" + ["fresh_file", "existing_longer_file", "file_of_a_larger_configuration"][kind])
     p = subprocess.run([vlib.BIN_MONORAIL, "-f", os.path.join(d, "Monorail.json"), "target", "render", "-f", "g.dot"],
                        cwd=d, capture_output=True, text=True, timeout=60)
     if p.returncode != 0:
@@ -74,6 +85,9 @@ def cli_render(ctx, cfg):
         m = re.match(r'^(\d+) -> (\d+);$', line)
         if m: adj.setdefault(int(m.group(1)), []).append(int(m.group(2)))
     n = len(nodes)
+    # exactly one closing brace, at the very end: anything after it (the tail of an older, longer file) is "something else"
+    if dot.count("}") != 1 or not dot.rstrip().endswith("}"):
+        nodes[n] = "<text after the closing brace>"; n += 1
     return [1, [[nodes.get(i, "") for i in range(n)], [adj.get(i, []) for i in range(n)]]]
 
 def run(ctx, scale):
